@@ -1384,6 +1384,10 @@ def replay(doc):
     elif part == 'session':
         for sig, dd in session_run(d['mode'], tuple(d['history'])):
             acc.fail(sig, dd, 'replay')
+    elif part == 'nsession':
+        hist = tuple((op, pw) for op, pw in d['history'])
+        for sig, dd in nsession_run(d['product'], d['start'], hist):
+            acc.fail(sig, dd, 'replay')
     elif part == 'strpw':
         work_strpw(dict(part='strpw', product=d['product'], pw=d['pw']), acc)
     else:
